@@ -366,6 +366,6 @@ func init() {
 		c.Group("C03/lease-before-write", "user resets and periodic updates test the lease before they save or write", func() { ruleLeaseBeforeWrites(c) })
 		c.Group("C03/serve-after-init", "the leader serves only after every leader-only resource was re-initialised; it steps down when the lease check fails", func() { ruleStepUpDown(c) })
 		c.Group("C03/window-txn", "(shared with C02) the time-window transaction is leader-guarded and only an applied write is remembered", func() { ruleSaveTimestampShape(c) })
-		c.Group("C03/reset-on-failure", "(shared with C02) losing the window or the campaign resets allocator and leadership", func() { ruleResetOnFailure(c) })
+		c.Group("C03/reset-on-failure", "(shared with C02) losing the window or the campaign resets allocator and leadership", func() { ruleResetOnFailure(c); ruleResetGroupUnconditional(c) })
 	})
 }
